@@ -8,6 +8,7 @@ import (
 	"io"
 	"os"
 	"strconv"
+	"sync"
 	"syscall"
 	"time"
 
@@ -34,14 +35,84 @@ type mountImpl struct {
 	jh   *lfuse.JournalHandle
 	wh   *lfuse.WALHandle
 	sh   *lfuse.SHMHandle
+	cache *pageCache
 	used int // operations that went through the FUSE handlers
 	fell int // lock operations on type sets that are not one byte range (direct call instead)
 }
 
+// pageCache models the kernel's page cache of the mounted database file "db" (the file system
+// opens files with OpenKeepCache): 4 KiB pages an application read through the mount stay cached
+// until LiteFS invalidates them (Invalidator.InvalidateDBRange / InvalidateDB, i.e.
+// notify_inval_inode) or until an attribute refresh shows a smaller file (the kernel then drops
+// what lies beyond the new size).  A read of a cached page does not reach LiteFS.  It sits in
+// front of the real fuse.FileSystem, which every call is passed on to.
+type pageCache struct {
+	mu    sync.Mutex
+	fsys  *lfuse.FileSystem
+	pages map[int64][]byte // offset of the 4 KiB page -> its bytes
+	size  int64            // the file size the kernel last saw
+	inval int
+}
+
+const kernelPage = 4096
+
+func (pc *pageCache) dropRange(off, size int64) {
+	pc.mu.Lock()
+	defer pc.mu.Unlock()
+	pc.inval++
+	for o := off - off%kernelPage; o < off+size; o += kernelPage {
+		delete(pc.pages, o)
+	}
+}
+
+func (pc *pageCache) dropAll() {
+	pc.mu.Lock()
+	defer pc.mu.Unlock()
+	pc.inval++
+	pc.pages = map[int64][]byte{}
+}
+
+// sawSize: an attribute refresh (stat, or the revalidation before a read)
+func (pc *pageCache) sawSize(n int64) {
+	pc.mu.Lock()
+	defer pc.mu.Unlock()
+	if n < pc.size {
+		for o := range pc.pages {
+			if o+kernelPage > n {
+				delete(pc.pages, o)
+			}
+		}
+	}
+	pc.size = n
+}
+
+func (pc *pageCache) InvalidateDB(db *litefs.DB) error {
+	if db.Name() == "db" {
+		pc.dropAll()
+	}
+	return pc.fsys.InvalidateDB(db)
+}
+func (pc *pageCache) InvalidateDBRange(db *litefs.DB, offset, size int64) error {
+	if db.Name() == "db" {
+		pc.dropRange(offset, size)
+	}
+	return pc.fsys.InvalidateDBRange(db, offset, size)
+}
+func (pc *pageCache) InvalidateSHM(db *litefs.DB) error { return pc.fsys.InvalidateSHM(db) }
+func (pc *pageCache) InvalidatePos(db *litefs.DB) error { return pc.fsys.InvalidatePos(db) }
+func (pc *pageCache) InvalidateEntry(name string) error {
+	if name == "db" {
+		pc.dropAll()
+	}
+	return pc.fsys.InvalidateEntry(name)
+}
+func (pc *pageCache) InvalidateLag() error { return pc.fsys.InvalidateLag() }
+
 func newMount(store *litefs.Store) (*mountImpl, error) {
 	fsys := lfuse.NewFileSystem("/nonexistent-verif-mount", store)
 	fsys.VerifAttachServer()
-	store.Invalidator = fsys
+	pc := &pageCache{fsys: fsys, pages: map[int64][]byte{}}
+	store.Invalidator = pc
 	n, err := fsys.Root()
 	if err != nil {
 		return nil, err
@@ -50,7 +121,7 @@ func newMount(store *litefs.Store) (*mountImpl, error) {
 	if !ok {
 		return nil, fmt.Errorf("unexpected root node type %T", n)
 	}
-	return &mountImpl{fsys: fsys, root: root}, nil
+	return &mountImpl{fsys: fsys, root: root, cache: pc}, nil
 }
 
 func (mt *mountImpl) forget() { mt.dbh, mt.jh, mt.wh, mt.sh = nil, nil, nil, nil }
@@ -205,6 +276,7 @@ func (mt *mountImpl) do(m *engineImpl, ctx context.Context, f []string) (obs str
 			mt.dbh = h.(*lfuse.DatabaseHandle)
 		}
 		err := mt.dbh.Write(ctx, &fuse.WriteRequest{Offset: off, Data: data, LockOwner: owner}, &fuse.WriteResponse{})
+		mt.cache.dropRange(off, int64(len(data))) // the kernel updates its own pages on a write through the mount
 		return errnoStr(err), true
 	case "dbt":
 		if len(f) != 2 || !m.need() {
@@ -219,7 +291,11 @@ func (mt *mountImpl) do(m *engineImpl, ctx context.Context, f []string) (obs str
 		if err != nil {
 			return errnoStr(err), true
 		}
-		return mt.errClass(m, n.(*lfuse.DatabaseNode).Setattr(ctx, setSize(uint64(sz)), &fuse.SetattrResponse{})), true
+		err = n.(*lfuse.DatabaseNode).Setattr(ctx, setSize(uint64(sz)), &fuse.SetattrResponse{})
+		if err == nil {
+			mt.cache.sawSize(sz) // truncate(2) through the mount
+		}
+		return mt.errClass(m, err), true
 	case "jc":
 		if !m.need() {
 			return "bad-op", true
@@ -551,6 +627,7 @@ func (mt *mountImpl) crossCheck(m *engineImpl, pos ltx.Pos) string {
 	if len(disk) > 1<<22 {
 		return "" // large images: size only
 	}
+	mt.cache.sawSize(int64(attr.Size))
 	h, err := dnode.Open(ctx, &fuse.OpenRequest{Flags: fuse.OpenReadOnly}, &fuse.OpenResponse{})
 	if err != nil {
 		return "open of the database: " + errnoStr(err)
@@ -558,18 +635,35 @@ func (mt *mountImpl) crossCheck(m *engineImpl, pos ltx.Pos) string {
 	dh := h.(*lfuse.DatabaseHandle)
 	defer func() { _ = dh.Release(ctx, &fuse.ReleaseRequest{}) }()
 	var got []byte
-	for off := int64(0); off < int64(len(disk)); off += 4096 {
-		resp := fuse.ReadResponse{Data: make([]byte, 0, 4096)}
-		if err := dh.Read(ctx, &fuse.ReadRequest{Offset: off, Size: 4096, LockOwner: 99}, &resp); err != nil {
+	hits := 0
+	for off := int64(0); off < int64(len(disk)); off += kernelPage {
+		mt.cache.mu.Lock()
+		pg, cached := mt.cache.pages[off]
+		mt.cache.mu.Unlock()
+		if cached {
+			hits++
+			got = append(got, pg...)
+			continue
+		}
+		resp := fuse.ReadResponse{Data: make([]byte, 0, kernelPage)}
+		if err := dh.Read(ctx, &fuse.ReadRequest{Offset: off, Size: kernelPage, LockOwner: 99}, &resp); err != nil {
 			return "read of the database: " + errnoStr(err)
 		}
 		got = append(got, resp.Data...)
-		if len(resp.Data) < 4096 {
+		if len(resp.Data) == kernelPage {
+			mt.cache.mu.Lock()
+			mt.cache.pages[off] = append([]byte{}, resp.Data...)
+			mt.cache.mu.Unlock()
+		}
+		if len(resp.Data) < kernelPage {
 			break
 		}
 	}
+	if m.c != nil {
+		m.c.CountN("mount.cache-hit-pages", hits)
+	}
 	if !bytes.Equal(got, disk) {
-		return fmt.Sprintf("the database read through the mount (%d bytes) differs from the file (%d bytes)", len(got), len(disk))
+		return fmt.Sprintf("the database read through the mount and the kernel's page cache (%d bytes, %d pages from the cache) differs from the file (%d bytes)", len(got), hits, len(disk))
 	}
 	if m.c != nil {
 		m.c.Count("mount.read-db")
